@@ -407,6 +407,63 @@ def run(tier, fx=None, ck=None, control=False):
             ck.finding("N1.nested-chunks-name-their-file", "N1.nested-chunks-name-their-file/%s" % f1.path, F.short_span(sp1),
                        "`%s` compiles a nested function body with a fresh compiler that is not told the source file: its frames are reported as `<eval>` "
                        "(`const f = (o) => o.a.b` in /m.ts: `at f (<eval>:1:23)`), while the bodies compiled by its siblings name the file" % f1.path)
+    # ---- F1 a program is compiled under the path of the run it belongs to
+    from c09 import ancestors as anc_f1
+    ck.rule("F1.compiled-under-its-own-path", "the source name handed to Compiler::compile_program_with_source derives from a ModulePath parameter of the function or from "
+            "Interpreter.current_module_path (which every run installs), never from a field that is set once per interpreter", floor=3)
+    nf1 = 0
+    for pf, ff in sorted(fx.fns.items()):
+        if ff.derived or not (ff.parent if ff.closure else pf).startswith("interpreter::"):
+            continue
+        for bi, t in ff.calls():
+            if not (t[1].get("d") or "").endswith("Compiler::compile_program_with_source") or len(t[2]) < 2 or t[2][1][0] not in ("c", "m"):
+                continue
+            nf1 += 1
+            anc = anc_f1(ff, t[2][1][1][0])
+            fields, params = set(), set()
+            for l in anc:
+                if 1 <= l <= ff.argc and "ModulePath" in fx.tys(ff.locals[l]):
+                    params.add(l)
+                for (db, si, rv) in ff.defs().get(l, []):
+                    if si == "T":
+                        continue
+                    for pl in F.rvalue_places(rv):
+                        for a_, v_, n_ in F.place_fields(pl):
+                            if a_ == "interpreter::Interpreter" and "path" in n_:
+                                fields.add(n_)
+                        # a closure reads what it captured: the captured reference is an ancestor too
+                        if ff.closure and pl[0] == 1 and "ModulePath" in fx.tys(ff.locals[l]):
+                            params.add(l)
+            if ff.closure:
+                # the closure compiles under a path it captured: follow the captured ModulePath values into the enclosing function
+                par = fx.fns.get(ff.parent)
+                params = set()
+                if par is not None:
+                    for bl_ in par.blocks:
+                        for s_ in bl_["s"]:
+                            if s_[0] == "a" and s_[2][0] == "agg" and isinstance(s_[2][1], dict) and s_[2][1].get("k") == "closure" and s_[2][1].get("p") == pf:
+                                for cap in s_[2][2]:
+                                    if cap[0] not in ("c", "m") or "ModulePath" not in fx.tys(par.locals[cap[1][0]]):
+                                        continue
+                                    for l in anc_f1(par, cap[1][0]):
+                                        if 1 <= l <= par.argc and "ModulePath" in fx.tys(par.locals[l]):
+                                            params.add(l)
+                                        for (db, si, rv) in par.defs().get(l, []):
+                                            if si == "T":
+                                                continue
+                                            for pl in F.rvalue_places(rv):
+                                                for a_, v_, n_ in F.place_fields(pl):
+                                                    if a_ == "interpreter::Interpreter" and "path" in n_:
+                                                        fields.add(n_)
+            okf = bool(params) or fields == {"current_module_path"}
+            ck.instance("F1.compiled-under-its-own-path", "%s: source name from %s" % (pf, "a ModulePath parameter" if params else (", ".join(sorted(fields)) or "a captured path")),
+                        F.short_span(t[6]), ok=okf)
+            if not okf:
+                ck.finding("F1.compiled-under-its-own-path", "F1.compiled-under-its-own-path/%s" % (ff.parent if ff.closure else pf), F.short_span(t[6]),
+                           "`%s` compiles a program under a name taken from `%s`: that field is not the path of the run at hand (main_module_path is set by the first run of an "
+                           "interpreter only), so the frames of a later program name the earlier file while their lines and columns are positions in the real one"
+                           % (pf, ", ".join(sorted(fields)) or "?"))
+    ck.anchor(nf1 >= 3, "calls of Compiler::compile_program_with_source in the interpreter (found %d)" % nf1)
     ctl = F.load_fixture()
     uc, rc = nestedcomp.rule(ctl, comp="nestedcomp::Compiler")
     gotn = sorted((f.path.split("::")[-1], sorted(miss)) for f, sp, inh, miss, via in rc)
